@@ -122,7 +122,7 @@ func (h *harness) syncRound(rng *lib.RNG, round int) {
 	for i := 0; i < target; i++ {
 		b, err := gen.Next(nil)
 		if err != nil {
-			h.res.Note("sync stage: generator: %v", err)
+			h.res.Fatalf("sync stage: chain generator failed: %v", err)
 			return
 		}
 		chain = append(chain, b)
@@ -134,18 +134,11 @@ func (h *harness) syncRound(rng *lib.RNG, round int) {
 	for i := 0; i < opt.NSlots; i++ {
 		slots = append(slots, gen.Slot(i))
 	}
-	src := &syncSource{r: rng.Fork(2), errPct: 12, sim: &sequencer{r: rng.Fork(3), blocks: map[uint64]*simBlock{}}}
+	src := &syncSource{r: rng.Fork(2), errPct: 12, sim: newSequencer(rng.Fork(3), true, 0)}
 	src.bundles = append(src.bundles, chain[:2]...)
-	src.sim.realign(1, false)
+	src.sim.realign(1, newAbs(), false)
 	bc, wdb := lib.NewNode(gen.Net, newState)
 	s := junosync.New(bc, src, log.NewNopZapLogger(), time.Millisecond, false, wdb)
-	ctx, cancel := context.WithCancel(context.Background())
-	runDone := make(chan struct{})
-	go func() {
-		defer close(runDone)
-		_, _, _ = lib.Try(func() error { return s.Run(ctx) })
-	}()
-
 	var mu sync.Mutex
 	var found []cFinding
 	violate := func(sig, what string) {
@@ -153,6 +146,18 @@ func (h *harness) syncRound(rng *lib.RNG, round int) {
 		found = append(found, cFinding{sig, what})
 		mu.Unlock()
 	}
+	ctx, cancel := context.WithCancel(context.Background())
+	runDone := make(chan struct{})
+	go func() {
+		defer close(runDone)
+		err, panicked, stack := lib.Try(func() error { return s.Run(ctx) })
+		if panicked {
+			violate("sync-run-panics", fmt.Sprintf("Synchronizer.Run panicked: %v\n%s", err, clip(stack)))
+		} else if ctx.Err() == nil {
+			violate("sync-run-returns-early", fmt.Sprintf("Synchronizer.Run returned before cancellation: %v", err))
+		}
+	}()
+
 	var stop atomic.Bool
 	var calls, fallbacks, real, maxLen, hashWrites, tornReads atomic.Int64
 	var wg sync.WaitGroup
@@ -243,7 +248,7 @@ func (h *harness) syncRound(rng *lib.RNG, round int) {
 			src.bundles = append(src.bundles, chain[len(src.bundles)])
 			n := uint64(len(src.bundles) - 1)
 			src.mu.Unlock()
-			src.sim.realign(n, false)
+			src.sim.realign(n, newAbs(), true)
 		}
 	}
 	src.down.Store(false)
@@ -275,7 +280,7 @@ func (h *harness) syncRound(rng *lib.RNG, round int) {
 	h.res.HitN("sync-source-errors-injected", int(src.injected.Load()))
 	h.res.HitN(fmt.Sprintf("sync-max-view-len=%d", min(maxLen.Load(), 5)), 1)
 	if synced != uint64(len(chain)-1) {
-		h.res.Note("sync stage round %d: synced to %d of %d", round, synced, len(chain)-1)
+		h.res.Fatalf("sync stage round %d: the Synchronizer synced only to %d of %d within the deadline", round, synced, len(chain)-1)
 	}
 	h.res.Case(fmt.Sprintf("sync/%d/%d", h.f.Seed, round), real.Load() > 0 && fallbacks.Load() > 0)
 	for _, f := range found {
